@@ -47,6 +47,11 @@ def failures(fns, name, s):
     """-> list of failed check names for function `name` on string s (exceptions included)."""
     fn = fns[name]
     try:
+        if name == "safely_quote":
+            # the other settings of `safe` the library itself uses (userinfo, query items), on the same string first: the default call
+            # that follows must not inherit anything from them
+            for other in ("/:@", "/=", ""):
+                fn(s, safe=other)
         out = fn(s)
         again = fn(out) if isinstance(out, str) else None
     except Exception as e:
